@@ -133,3 +133,14 @@ M("c12-gate-ignores-flag", "C12", "break", (S, "        if not self._can_answer_
 M("c12-wrong-delay-window", "C12", "break", (S, "                self.timings.REQUEST_RESPONSE_DELAY_MIN,\n                self.timings.REQUEST_RESPONSE_DELAY_MAX,", "                self.timings.REQUEST_RESPONSE_DELAY_MAX,\n                self.timings.REQUEST_RESPONSE_DELAY_MAX * 2,"))
 M("c12-everyone-answers", "C12", "break", (S, "            if instance.matches_find(entry, addr):\n                matching_instances.append(instance)", "            if instance.matches_find(entry, addr) or True:\n                matching_instances.append(instance)"))
 M("c12-twin-lambda-free-loop", "C12", "benign", (S, "        for instance in matching_instances:\n            call(instance._send_offer)", "        for inst in matching_instances:\n            call(inst._send_offer)"))
+
+# ---------------------------------------------------------------- C11
+M("c11-announcer-always-nacks", "C11", "break", (S, "        if not matching_services:\n            self.log.warning(", "        if True:\n            self.log.warning("))
+M("c11-no-nack-on-rejection", "C11,C06", "break", (S, "        except NakSubscription:\n            self.announcer._send_subscribe_nack(subscription, addr)", "        except NakSubscription:\n            pass"))
+M("c11-ack-to-multicast", "C11", "break", (S, "            self.announcer.queue_send(subscription.to_ack_entry(), remote=addr)", "            self.announcer.queue_send(subscription.to_ack_entry())"))
+M("c11-ack-wrong-instance", "C11", "break", (S, "            instance_id=self.instance_id,\n            major_version=self.major_version,\n            ttl=self.ttl,", "            instance_id=self.service_id,\n            major_version=self.major_version,\n            ttl=self.ttl,"))
+M("c11-stopsubscribe-answered", "C11", "break", (S, "        if entry.ttl == 0:\n            self.eventgroup_subscribe_stopped(addr, subscription)\n            return True", "        if entry.ttl == 0:\n            self.eventgroup_subscribe_stopped(addr, subscription)\n            self.announcer.queue_send(subscription.to_ack_entry(), remote=addr)\n            return True"))
+M("c11-multicast-gate-off", "C11", "break", (S, "                if multicast:\n                    self.log.warning(\n                        \"discarding subscribe", "                if False:\n                    self.log.warning(\n                        \"discarding subscribe"))
+M("c11-counter-dropped", "C11", "break", (S, "            counter=entry.eventgroup_counter,", "            counter=0,"))
+M("c11-nack-ttl-1", "C11", "break", (S, "        return dataclasses.replace(self, ttl=0).to_ack_entry()", "        return dataclasses.replace(self, ttl=1).to_ack_entry()"))
+M("c11-no-running-check", "C11", "break", (S, "        if self._task is None:\n            return False\n\n        if not self.service.matches_subscribe(entry):", "        if not self.service.matches_subscribe(entry):"))
